@@ -165,7 +165,7 @@ PROPS = {
         ],
     },
     "C03": {
-        "units": ["issue", "storage"],
+        "units": ["issue", "storage", "http", "evloop"],
         "design_ref": "DESIGN.md section 5 C03",
         "technique": "Verus call-site preconditions on the two writes of an issuance (key file, certificate file) over a ghost world; errors propagate",
         "text": "Deductive proof over the whole of request_certificate (macros expanded) that a failed attempt never writes the certificate file, "
@@ -180,7 +180,7 @@ PROPS = {
         ],
     },
     "C04": {
-        "units": ["jws", "http", "keys", "issue", "acctproto", "texts", "account", "cfgwire", "acctpayload"],
+        "units": ["jws", "http", "keys", "issue", "acctproto", "texts", "account", "cfgwire", "acctpayload", "acctstore"],
         "design_ref": "DESIGN.md section 5 C04",
         "technique": "Verus function contracts: JWS structure as a spec predicate over uninterpreted base64url/serialisation/signature relations; nonce and URL binding as preconditions of the transmission",
         "text": "Deductive proof that encode_jwk/encode_kid/encode_kid_mac produce the flattened JWS of RFC 7515 with exactly the header "
@@ -210,7 +210,7 @@ PROPS = {
         ],
     },
     "C06": {
-        "units": ["schedule", "x509time", "renew", "storage", "config", "evloop"],
+        "units": ["schedule", "x509time", "renew", "storage", "config", "evloop", "duration", "ident"],
         "design_ref": "DESIGN.md section 5 C06",
         "technique": "Verus function contracts: saturating-time arithmetic against spec functions; request shim requires the scheduled wait",
         "text": "Deductive proof that schedule_renewal answers 'now' when a file is missing or an identifier is not covered, and otherwise "
@@ -223,7 +223,7 @@ PROPS = {
         ],
     },
     "C07": {
-        "units": ["renew", "schedule", "issue", "http", "hooks", "storage"],
+        "units": ["renew", "schedule", "issue", "http", "hooks", "storage", "evloop"],
         "design_ref": "DESIGN.md section 5 C07",
         "technique": "Verus function contracts over ghost counters (requests, post-operation runs, time slept since the last request)",
         "text": "Deductive proof that one task step performs exactly one request and exactly one post-operation hook run, reports success iff "
@@ -264,7 +264,7 @@ PROPS = {
         ],
     },
     "C09": {
-        "units": ["ratelimit", "http", "evloop", "renew"],
+        "units": ["ratelimit", "http", "evloop", "renew", "config"],
         "design_ref": "DESIGN.md section 5 C09",
         "technique": "Verus function contracts + data-structure invariant with ghost admission history",
         "text": "Deductive proof (Verus/Z3) over the extracted limiter code that the admission history stays "
